@@ -33,7 +33,7 @@ class CaseTimeout(BaseException):
 
 
 def _alarm(signum, frame):
-    raise CaseTimeout('case exceeded %.0fs watchdog' % CASE_TIMEOUT_S)
+    raise CaseTimeout('case exceeded its watchdog budget (%s)' % ('cpu' if signum == signal.SIGPROF else 'wall'))
 
 
 def h8(x):
@@ -170,6 +170,7 @@ _CHECK = None
 
 def _init_worker():
     signal.signal(signal.SIGALRM, _alarm)
+    signal.signal(signal.SIGPROF, _alarm)
     try:
         import torch
         torch.set_num_threads(1)
@@ -180,8 +181,13 @@ def _init_worker():
 def run_one(check, case):
     """Run one case under the watchdog; an escape from run_case is itself a violation (the check
     modules catch and classify the exceptions they expect)."""
+    # the budget is CPU time of this process (ITIMER_PROF), so that a busy machine cannot turn a slow case into an
+    # alarm; a wall-clock backstop of 6x the budget still catches a case that sleeps forever
+    budget = getattr(check, 'CASE_TIMEOUT_S', CASE_TIMEOUT_S)
     signal.signal(signal.SIGALRM, _alarm)
-    signal.setitimer(signal.ITIMER_REAL, getattr(check, 'CASE_TIMEOUT_S', CASE_TIMEOUT_S))
+    signal.signal(signal.SIGPROF, _alarm)
+    signal.setitimer(signal.ITIMER_PROF, budget)
+    signal.setitimer(signal.ITIMER_REAL, 6 * budget)
     try:
         r = check.run_case(case)
     except CaseTimeout as e:
@@ -197,6 +203,7 @@ def run_one(check, case):
               ' / '.join('%s:%s' % (os.path.basename(f.filename), f.name)
                          for f in traceback.extract_tb(e.__traceback__)[-4:]), case)
     finally:
+        signal.setitimer(signal.ITIMER_PROF, 0)
         signal.setitimer(signal.ITIMER_REAL, 0)
     return r
 
